@@ -224,6 +224,76 @@ def describe_result(prog, ret):
     return ("other", ret)
 
 
+def _option_feasible(p):
+    """a path that assigns Some(..)/None to a local and later branches on that local's discriminant must take the
+    matching arm (enum_paths enumerates both)"""
+    opt = {}
+    for e in p.events:
+        if e[0] == "assign" and not e[2]["a"]["p"]:
+            rv = e[2]["rv"]
+            l = e[2]["a"]["l"]
+            if isinstance(rv, dict) and isinstance(rv.get("agg"), dict) and str(rv["agg"].get("adt", "")).endswith("option::Option"):
+                opt[l] = rv["agg"].get("variant")
+            elif isinstance(rv, dict) and "use" in rv and op_local(rv["use"]) in opt:
+                opt[l] = opt[op_local(rv["use"])]
+            else:
+                opt.pop(l, None)
+        elif e[0] == "call":
+            d = e[2].get("dest")
+            if d and not d["p"]:
+                opt.pop(d["l"], None)
+        elif e[0] == "branch" and e[2].kind == "discr":
+            pl = e[2].data[0]
+            if isinstance(pl, dict) and not pl.get("p") and pl.get("l") in opt and "option::Option" in str(e[2].data[1]):
+                want = 1 if opt[pl["l"]] == "Some" else 0
+                taken = e[3]
+                if isinstance(taken, tuple):
+                    if want in taken[1]:
+                        return False
+                elif taken != want:
+                    return False
+    return True
+
+
+def _resolve_value(prog, p, op, depth=0):
+    """what an operand holds at the end of path p, looking through copies and `Some(x)` payload projections"""
+    if op is None or depth > 8:
+        return None
+    c = op_const(op)
+    if c is not None:
+        ty, val = c.get("ty", ""), c.get("val", "")
+        if ty in prog.adts and isinstance(val, str) and val.startswith(ty + "::"):
+            return ("variant", ty, val[len(ty) + 2:])
+        return ("const", val)
+    pl = op_place(op)
+    if pl is None:
+        return None
+    proj = pl["p"]
+    for e in reversed(p.events):
+        if e[0] == "assign" and e[2]["a"]["l"] == pl["l"] and not e[2]["a"]["p"]:
+            rv = e[2]["rv"]
+            if not isinstance(rv, dict):
+                return None
+            if not proj:
+                if "use" in rv:
+                    return _resolve_value(prog, p, rv["use"], depth + 1)
+                if isinstance(rv.get("agg"), dict) and "adt" in rv["agg"]:
+                    if str(rv["agg"]["adt"]).endswith("option::Option") and rv["agg"].get("variant") == "Some":
+                        return _resolve_value(prog, p, (rv.get("ops") or [None])[0], depth + 1)
+                    return ("variant", rv["agg"]["adt"], rv["agg"]["variant"])
+                return None
+            # payload of Some: [{dc: 1, n: Some}, {f: 0}]
+            if len(proj) == 2 and isinstance(proj[0], dict) and proj[0].get("n") == "Some" and isinstance(proj[1], dict) and proj[1].get("f") == 0:
+                if isinstance(rv.get("agg"), dict) and rv["agg"].get("variant") == "Some":
+                    return _resolve_value(prog, p, (rv.get("ops") or [None])[0], depth + 1)
+                if "use" in rv:
+                    q = op_place(rv["use"])
+                    if q is not None and not q["p"]:
+                        return _resolve_value(prog, p, {"copy": {"l": q["l"], "p": proj}}, depth + 1)
+            return None
+    return None
+
+
 def str_table(body, prog):
     """For a function matching a &str against literals: {literal: result}, default result.
     Every path is classified by the single literal it compared equal to (or none)."""
@@ -231,6 +301,8 @@ def str_table(body, prog):
     default = []
     for p in enum_paths(body, prog):
         if p.end != "return":
+            continue
+        if not _option_feasible(p):
             continue
         pos = []
         for e in p.events:
@@ -243,6 +315,47 @@ def str_table(body, prog):
                 if is_true:
                     pos.append(lit)
         res = describe_result(prog, p.ret)
+        # `<Option>.unwrap_or(default)` at the end of the path (a table whose helper was inlined): the Option built on
+        # this very path decides
+        if p.ret is not None and p.ret[0] == "call" and (p.ret[1]["f"].get("fn") or "").endswith("Option::<T>::unwrap_or"):
+            t = p.ret[1]
+            ol = op_local(t["args"][0])
+            chosen = None
+            cur = ol
+            for _ in range(6):
+                if cur is None:
+                    break
+                nxt = None
+                for e in reversed(p.events):
+                    if e[0] == "assign" and e[2]["a"]["l"] == cur and not e[2]["a"]["p"]:
+                        rv = e[2]["rv"]
+                        if isinstance(rv, dict) and isinstance(rv.get("agg"), dict) and str(rv["agg"].get("adt", "")).endswith("option::Option"):
+                            chosen = rv
+                        elif isinstance(rv, dict) and "use" in rv:
+                            nxt = op_local(rv["use"])
+                        break
+                if chosen is not None:
+                    break
+                cur = nxt
+            if chosen is not None:
+                if chosen["agg"].get("variant") == "Some":
+                    p = Path(p.blocks, p.events, p.end, ("rv", chosen))
+                    res = describe_result(prog, p.ret)
+                else:
+                    d = t["args"][1] if len(t["args"]) > 1 else None
+                    p = Path(p.blocks, p.events, p.end, ("rv", {"use": d}))
+                    res = describe_result(prog, p.ret)
+                    dl = op_local(d) if d is not None else None
+                    if res[0] != "const" and dl is not None:
+                        for e in reversed(p.events):
+                            if e[0] == "assign" and e[2]["a"]["l"] == dl and not e[2]["a"]["p"]:
+                                res = describe_result(prog, ("rv", e[2]["rv"]))
+                                break
+                    if res[0] == "const":
+                        c = op_const(d) or {}
+                        ty, val = c.get("ty", ""), c.get("val", "")
+                        if ty in prog.adts and isinstance(val, str) and val.startswith(ty + "::"):
+                            res = ("variant", ty, val[len(ty) + 2:])
         # `Some(<enum variant>)` is looked through, so that a table moved into a helper returning Option reads the same
         if res[0] == "variant" and res[1].endswith("option::Option") and res[2] == "Some" and p.ret[0] == "rv":
             ops = p.ret[1].get("ops") or []
@@ -270,6 +383,10 @@ def str_table(body, prog):
                                 res = describe_result(prog, ("rv", rv))
                             break
                 cur = nxt
+        if res[0] == "other" and isinstance(res[1], dict) and "use" in res[1]:
+            rr = _resolve_value(prog, p, res[1]["use"])
+            if rr is not None:
+                res = rr
         if res[0] == "other" and not isinstance(res[1], str):
             res = ("other", json.dumps(res[1], sort_keys=True, default=str))
         if len(pos) == 1:
